@@ -35,6 +35,11 @@ func NewWeekFromString(yyyyWww string) (Week, error) {
 		if yErr != nil {
 			return nil, errors.New("INVALID_WEEK_PERIOD")
 		}
+		// December 28th is always part of the last week of a year.
+		lastDay, _ := klog.NewDate(year, 12, 28)
+		if _, lastWeek := lastDay.WeekNumber(); week > lastWeek {
+			return nil, errors.New("INVALID_WEEK_PERIOD")
+		}
 		for ref.Weekday() != 1 {
 			ref = ref.PlusDays(-1)
 		}
